@@ -2767,7 +2767,12 @@ func (s *Server) serveConnCounted(c net.Conn, countConcurrency bool) error {
 		ctx.Response.Reset()
 
 		if s.stop.Load() == 1 {
+			// Responses to pipelined requests may still sit in bw: they are
+			// only flushed when no further request is buffered.
 			err = nil
+			if bw != nil {
+				err = bw.Flush()
+			}
 			break
 		}
 	}
